@@ -32,10 +32,10 @@ package combinator
 
 //@ pure func eof(ctx *parsley.Context, pos parsley.Pos) parsley.Pos = parsley.Eof(ctx.Reader(), pos)
 //@ -- what a combinator knows about an intermediate result / error at position pos
-//@ pure func resOK(ctx *parsley.Context, n parsley.Node, pos parsley.Pos) bool = n != nil ==> parsley.NodeOK(n) && (parsley.ListSpare(n) == 0 || (freshid(parsley.ListArr(n)) && parsley.GhostSpare(parsley.ListArr(n)))) && parsley.EndsWithin(n, pos, eof(ctx, pos))
+//@ pure func resOK(ctx *parsley.Context, n parsley.Node, pos parsley.Pos) bool = n != nil ==> parsley.NodeOK(n) && parsley.ListOwn(n) && parsley.EndsWithin(n, pos, eof(ctx, pos))
 //@ pure func errOK(ctx *parsley.Context, e parsley.Error, pos parsley.Pos) bool = e != nil ==> pos <= e.Pos() && e.Pos() <= eof(ctx, pos) && e.Pos() <= parsley.GhostMaxFail
 //@ -- ghost state inside a running combinator: monotone marks moved on, floor and window are the combinator's own
-//@ pure func ghostIn(ctx *parsley.Context, lrc data.IntMap, pos parsley.Pos) bool = (old(parsley.GhostCurtailed) ==> parsley.GhostCurtailed) && parsley.GhostMaxFail >= old(parsley.GhostMaxFail) && parsley.GhostCalls > old(parsley.GhostCalls) && parsley.GhostFloorPos == pos && same(parsley.GhostFloorLrc, lrc) && parsley.GhostLo == pos && parsley.GhostHi == eof(ctx, pos) && (forall a int :: !freshid(a) && old(parsley.GhostSpare(a)) ==> parsley.GhostSpare(a))
+//@ pure func ghostIn(ctx *parsley.Context, lrc data.IntMap, pos parsley.Pos) bool = (old(parsley.GhostCurtailed) ==> parsley.GhostCurtailed) && parsley.GhostMaxFail >= old(parsley.GhostMaxFail) && parsley.GhostCalls > old(parsley.GhostCalls) && parsley.GhostFloorPos == pos && same(parsley.GhostFloorLrc, lrc) && parsley.GhostLo == pos && parsley.GhostHi == eof(ctx, pos) && (forall a int :: !freshid(a) ==> parsley.GhostSpare(a) == old(parsley.GhostSpare(a)))
 
 //@ -- Choice: the first parser that returns a node wins (E5)
 //@ closure Choice$1(ctx *parsley.Context, lrc data.IntMap, pos parsley.Pos) (n parsley.Node, cp data.IntSet, err parsley.Error)
@@ -59,6 +59,9 @@ package combinator
 //@   invariant data.Inv(cp) && errOK(ctx, err, pos) && errOK(ctx, notFoundErr, pos) && resOK(ctx, res, pos)
 //@   invariant [PC1] k >= 1 && res == nil && err == nil && notFoundErr == nil ==> parsley.GhostCurtailed
 
+//@ -- the same result, possibly as a list re-sliced to cut off its spare capacity
+//@ pure func sameAlts(a parsley.Node, b parsley.Node) bool = same(a, b) || (a != nil && b != nil && typeis[ast.NodeList](a) && typeis[ast.NodeList](b) && parsley.ListArr(a) == parsley.ListArr(b) && parsley.NAlts(a) == parsley.NAlts(b) && parsley.ListSpare(a) == 0)
+
 //@ -- Memoize (E1, C03): a cached result whose stored context is covered by the current one is returned as is;
 //@ -- otherwise the call is curtailed when the parser's count exceeds remaining+1, else the wrapped parser is
 //@ -- called exactly once with the count incremented and its result is stored and returned unchanged
@@ -71,6 +74,7 @@ package combinator
 //@   let curtail = data.MapOf(lrc)[parserIndex] > ctx.Reader().Remaining(pos) + 1
 //@   ensures  [hit;C03] hit ==> ncalls() == 0 && same(n, st.Node) && same(cp, st.CurtailingParsers) && same(err, st.Error)
 //@   ensures  [curtailed;C01,C02] !hit && curtail ==> ncalls() == 0 && n == nil && err == nil && forall x int :: data.Member(data.ElemsOf(cp), x) == (x == parserIndex)
-//@   ensures  [miss;C01,C03] !hit && !curtail ==> ncalls() == 1 && callarg[*parsley.Context](1, 1) == ctx && callarg[parsley.Pos](1, 3) == pos && same(n, callres[parsley.Node](1, 0)) && same(cp, callres[data.IntSet](1, 1)) && same(err, callres[parsley.Error](1, 2))
+//@   ensures  [miss;C01,C03] !hit && !curtail ==> ncalls() == 1 && callarg[*parsley.Context](1, 1) == ctx && callarg[parsley.Pos](1, 3) == pos && sameAlts(n, callres[parsley.Node](1, 0)) && same(cp, callres[data.IntSet](1, 1)) && same(err, callres[parsley.Error](1, 2))
 //@   ensures  [inc;C02] !hit && !curtail ==> data.MapOf(callarg[data.IntMap](1, 2))[parserIndex] == data.MapOf(lrc)[parserIndex] + 1 && forall k int :: k != parserIndex ==> data.MapOf(callarg[data.IntMap](1, 2))[k] == data.MapOf(lrc)[k]
 //@   ghost_return when n == nil && err == nil :: parsley.GhostCurtailed = true
+//@   ghost_return when n != nil && parsley.ListArr(n) != 0 && freshid(parsley.ListArr(n)) :: parsley.GhostSpare(parsley.ListArr(n)) = false
